@@ -7,8 +7,9 @@ difference-list form (`D c ts rest`: a phrase of category `c` is a prefix of `ts
 fragment can reach consumes only phrases of its category (partial correctness, `SpecP`).  Proved by
 induction on the fuel with symbolic execution of the `do` blocks (`pautoP`) and a small derivation
 search at the leaves (`pleaf`).  Results: `single_sound`, `parseTokens_sound`, `D_cancel`/`D_lang`.
-The grammar is slightly more liberal than the recogniser in one place: the operator position of a
-chain admits any `Atom` (the recogniser requires it to evaluate to an identifier, e.g. `+` or `(+)`).
+The operator position of a chain is an `OpAtom` (an identifier, possibly wrapped in parentheses: the
+recogniser requires the operator expression to *be* an identifier, `+` or `(+)`); the posts therefore
+also track "if the result is a bare identifier expression then the phrase is an `OpAtom`".
 -/
 import NoulithModel.Lemmas.C15ParseSpec
 namespace Noulith.C15
@@ -109,7 +110,7 @@ def AllFrag (ts : List Token) : Prop := ∀ t ∈ ts, Frag t = true
 
 /-- syntactic categories of the fragment -/
 inductive Cat where
-  | atom | operand | chain | opTail | args1 | args
+  | atom | opAtom | operand | chain | opTail | args1 | args
   deriving DecidableEq, Repr
 
 /-- the grammar, in difference-list form: `D c ts rest` — a phrase of category `c` is a prefix of
@@ -117,8 +118,9 @@ inductive Cat where
 
     Atom    ::= literal | ident | '(' Args ')' | '[' ']' | '[' Args ']'
     Operand ::= Atom | Operand '(' ')' | Operand '(' Args ')' | Operand '[' Chain ']'
-    Chain   ::= Operand | Operand Atom | Operand Atom Operand OpTail
-    OpTail  ::= ε | Atom Operand OpTail
+    OpAtom  ::= ident | '(' OpAtom ')'
+    Chain   ::= Operand | Operand Atom | Operand OpAtom Operand OpTail
+    OpTail  ::= ε | OpAtom Operand OpTail
     Args1   ::= Chain | Args1 ',' Chain
     Args    ::= Args1 | Args1 ','                                                        -/
 inductive D : Cat → List Token → List Token → Prop where
@@ -133,10 +135,12 @@ inductive D : Cat → List Token → List Token → Prop where
   | index (ts m r : List Token) : D .operand ts (.leftBracket :: m) → D .chain m (.rightBracket :: r) → D .operand ts r
   | chainOperand (ts r : List Token) : D .operand ts r → D .chain ts r
   | juxtapose (ts m r : List Token) : D .operand ts m → D .atom m r → D .chain ts r
-  | chainOps (ts m1 m2 m3 r : List Token) : D .operand ts m1 → D .atom m1 m2 → D .operand m2 m3 →
+  | opIdent (s : List Char) (r : List Token) : D .opAtom (.ident s :: r) r
+  | opParen (ts r : List Token) : D .opAtom ts (.rightParen :: r) → D .opAtom (.leftParen :: ts) r
+  | chainOps (ts m1 m2 m3 r : List Token) : D .operand ts m1 → D .opAtom m1 m2 → D .operand m2 m3 →
       D .opTail m3 r → D .chain ts r
   | opNil (r : List Token) : D .opTail r r
-  | opCons (ts m1 m2 r : List Token) : D .atom ts m1 → D .operand m1 m2 → D .opTail m2 r → D .opTail ts r
+  | opCons (ts m1 m2 r : List Token) : D .opAtom ts m1 → D .operand m1 m2 → D .opTail m2 r → D .opTail ts r
   | args1One (ts r : List Token) : D .chain ts r → D .args1 ts r
   | args1Snoc (ts m r : List Token) : D .args1 ts (.comma :: m) → D .chain m r → D .args1 ts r
   | argsOf (ts r : List Token) : D .args1 ts r → D .args ts r
@@ -229,37 +233,47 @@ theorem specP_bind_attach {β} (e : PExpr) (f : PExpr → P β) (ts : List Token
   rw [attach_frag e ts hf]
   exact h
 
+theorem isIdent_iff (e : PExpr) : e.isIdent = true ↔ e = .ident := by
+  cases e <;> simp [PExpr.isIdent]
+
 /-- postcondition "a phrase of category `c` was consumed from `ts`" (and the rest is still in the fragment) -/
 def PostD (c : Cat) (ts : List Token) {α} : α → List Token → Prop := fun _ r => D c ts r ∧ AllFrag r
-/-- postcondition "nothing was consumed" -/
-def PostSame (ts : List Token) {α} : α → List Token → Prop := fun _ r => r = ts
+/-- … and if the result is a bare identifier expression, the phrase is an `OpAtom` -/
+def PostI (c : Cat) (ts : List Token) : PExpr → List Token → Prop :=
+  fun a r => D c ts r ∧ AllFrag r ∧ (a = .ident → D .opAtom ts r)
+/-- postcondition "nothing was consumed and the accumulator is returned" -/
+def PostSame {α} (e : α) (ts : List Token) : α → List Token → Prop := fun a r => r = ts ∧ a = e
 
 /-- induction hypothesis for soundness at fuel `n` -/
 structure AllSound (n : Nat) : Prop where
-  atom : ∀ ts, AllFrag ts → SpecP (atom n ts) (PostD .atom ts)
-  operand : ∀ ts, AllFrag ts → SpecP (operand n ts) (PostD .operand ts)
-  operandLoop : ∀ ts0 cur ts, AllFrag ts → D .operand ts0 ts → SpecP (operandLoop n cur ts) (PostD .operand ts0)
-  operator : ∀ ab ts, AllFrag ts → SpecP (operator n ab ts) (PostD .atom ts)
-  chain : ∀ ab ts, AllFrag ts → SpecP (chain n ab ts) (PostD .chain ts)
+  atom : ∀ ts, AllFrag ts → SpecP (atom n ts) (PostI .atom ts)
+  operand : ∀ ts, AllFrag ts → SpecP (operand n ts) (PostI .operand ts)
+  operandLoop : ∀ ts0 cur ts, AllFrag ts → D .operand ts0 ts →
+    SpecP (operandLoop n cur ts) (fun a r => D .operand ts0 r ∧ AllFrag r ∧ (a = .ident → cur = .ident ∧ r = ts))
+  operator : ∀ ab ts, AllFrag ts →
+    SpecP (operator n ab ts) (fun p r => D .atom ts r ∧ AllFrag r ∧ (p.1 = true → D .opAtom ts r))
+  chain : ∀ ab ts, AllFrag ts → SpecP (chain n ab ts) (PostI .chain ts)
   chainLoop : ∀ ab ts, AllFrag ts → SpecP (chainLoop n ab ts) (PostD .opTail ts)
-  logicAnd : ∀ ts, AllFrag ts → SpecP (logicAnd n ts) (PostD .chain ts)
-  logicAndLoop : ∀ e ts, AllFrag ts → SpecP (logicAndLoop n e ts) (PostSame ts)
-  single : ∀ ts, AllFrag ts → SpecP (single n ts) (PostD .chain ts)
-  singleLoop : ∀ e ts, AllFrag ts → SpecP (singleLoop n e ts) (PostSame ts)
-  acs : ∀ a ts, AllFrag ts → SpecP (acs n a ts) (PostD .args ts)
-  acsLoop : ∀ ts0 a x y c ts, AllFrag ts → D .args1 ts0 ts → SpecP (acsLoop n a x y c ts) (PostD .args ts0)
-  annotatedPattern : ∀ a ts, AllFrag ts → SpecP (annotatedPattern n a ts) (PostD .args ts)
-  assignment : ∀ ts, AllFrag ts → SpecP (assignment n ts) (PostD .args ts)
-  expression : ∀ ts, AllFrag ts → SpecP (expression n ts) (PostD .args ts)
-  exprLoop : ∀ ts, AllFrag ts → SpecP (exprLoop n ts) (PostSame ts)
+  logicAnd : ∀ ts, AllFrag ts → SpecP (logicAnd n ts) (PostI .chain ts)
+  logicAndLoop : ∀ e ts, AllFrag ts → SpecP (logicAndLoop n e ts) (PostSame e ts)
+  single : ∀ ts, AllFrag ts → SpecP (single n ts) (PostI .chain ts)
+  singleLoop : ∀ e ts, AllFrag ts → SpecP (singleLoop n e ts) (PostSame e ts)
+  acs : ∀ a ts, AllFrag ts → SpecP (acs n a ts)
+    (fun p r => D .args ts r ∧ AllFrag r ∧ (∀ e, p.1 = [e] → p.2 = false → e = .ident → D .opAtom ts r))
+  acsLoop : ∀ ts0 a x y c ts, AllFrag ts → D .args1 ts0 ts → SpecP (acsLoop n a x y c ts)
+    (fun p r => D .args ts0 r ∧ AllFrag r ∧ (∀ e, p.1 = [e] → p.2 = false → r = ts ∧ x ++ y = [e] ∧ c = false))
+  annotatedPattern : ∀ a ts, AllFrag ts → SpecP (annotatedPattern n a ts) (PostI .args ts)
+  assignment : ∀ ts, AllFrag ts → SpecP (assignment n ts) (PostI .args ts)
+  expression : ∀ ts, AllFrag ts → SpecP (expression n ts) (PostI .args ts)
+  exprLoop : ∀ ts, AllFrag ts → SpecP (exprLoop n ts) (PostSame (false, false) ts)
 
 attribute [irreducible] SpecP AllFrag
 attribute [local irreducible] Parse.atom Parse.dictLoop Parse.switchCases Parse.structFields Parse.forIterations Parse.forIteration Parse.operand Parse.operandLoop Parse.updateLoop Parse.operator Parse.chain Parse.chainLoop Parse.logicAnd Parse.logicAndLoop Parse.single Parse.singleLoop Parse.acs Parse.acsLoop Parse.annotatedPattern Parse.assignment Parse.paramList Parse.paramLoop Parse.expression Parse.exprLoop Parse.formatString Parse.formatParts
 
 /-- facts about the fragment: simplify hypotheses, closing the goal when a token outside the fragment appears -/
-macro "pfrag" : tactic => `(tactic| simp only [PostD, PostSame, allFrag_cons, allFrag_nil, frag_null, frag_leftParen, frag_rightParen, frag_leftBracket, frag_rightBracket, frag_comma, frag_intLit, frag_ratLit, frag_floatLit, frag_imagLit, frag_stringLit, frag_bytesLit, frag_ident, frag_bLeftBracket_, frag_leftBrace_, frag_rightBrace_, frag_backtick_, frag_and_, frag_or_, frag_coalesce_, frag_while_, frag_for_, frag_yield_, frag_into_, frag_if_, frag_else_, frag_switch_, frag_case_, frag_try_, frag_catch_, frag_break_, frag_continue_, frag_return_, frag_throw_, frag_bang_, frag_questionMark_, frag_colon_, frag_leftArrow_, frag_rightArrow_, frag_doubleLeftArrow_, frag_doubleColon_, frag_semicolon_, frag_ellipsis_, frag_lambda_, frag_lambdaEnd_, frag_assign_, frag_consume_, frag_pop_, frag_remove_, frag_swap_, frag_every_, frag_struct_, frag_freeze_, frag_import_, frag_literally_, frag_underscore_, frag_internalFrame_, frag_internalPush_, frag_internalPop_, frag_internalPeek_, frag_internalWhile_, frag_internalFor_, frag_internalCall_, frag_internalLambda_, frag_invalid_, frag_formatString_, frag_internalPeekN_, frag_comment_, frag_panic_, isTok_some_iff, isTok_none,
+macro "pfrag" : tactic => `(tactic| simp only [PostD, PostI, PostSame, allFrag_cons, allFrag_nil, frag_null, frag_leftParen, frag_rightParen, frag_leftBracket, frag_rightBracket, frag_comma, frag_intLit, frag_ratLit, frag_floatLit, frag_imagLit, frag_stringLit, frag_bytesLit, frag_ident, frag_bLeftBracket_, frag_leftBrace_, frag_rightBrace_, frag_backtick_, frag_and_, frag_or_, frag_coalesce_, frag_while_, frag_for_, frag_yield_, frag_into_, frag_if_, frag_else_, frag_switch_, frag_case_, frag_try_, frag_catch_, frag_break_, frag_continue_, frag_return_, frag_throw_, frag_bang_, frag_questionMark_, frag_colon_, frag_leftArrow_, frag_rightArrow_, frag_doubleLeftArrow_, frag_doubleColon_, frag_semicolon_, frag_ellipsis_, frag_lambda_, frag_lambdaEnd_, frag_assign_, frag_consume_, frag_pop_, frag_remove_, frag_swap_, frag_every_, frag_struct_, frag_freeze_, frag_import_, frag_literally_, frag_underscore_, frag_internalFrame_, frag_internalPush_, frag_internalPop_, frag_internalPeek_, frag_internalWhile_, frag_internalFor_, frag_internalCall_, frag_internalLambda_, frag_invalid_, frag_formatString_, frag_internalPeekN_, frag_comment_, frag_panic_, isTok_some_iff, isTok_none, isIdent_iff, true_implies, forall_const,
     Bool.false_eq_true, false_and, and_false, and_true, true_and, decide_eq_true_eq, reduceCtorEq,
-    Bool.and_eq_true, Bool.or_eq_true, Option.some.injEq, isIdentTok, Bool.and_false, Bool.or_false] at *)
+    Bool.and_eq_true, Bool.or_eq_true, Option.some.injEq, Bool.and_false, Bool.or_false] at *)
 
 /-- a grammar leaf: build the derivation from the facts in the context -/
 macro "dsolve" : tactic => `(tactic| first
@@ -268,6 +282,8 @@ macro "dsolve" : tactic => `(tactic| first
   | exact D.ident _ _
   | exact D.emptyList _
   | exact D.opNil _
+  | exact D.opIdent _ _
+  | (apply D.opParen; assumption)
   | (apply D.lit; rfl)
   | (apply D.paren; assumption)
   | (apply D.list; assumption)
@@ -291,7 +307,7 @@ macro "pstepP" : tactic => `(tactic| first
       ne_eq, not_true_eq_false, not_false_eq_true, if_true, if_false, Bool.false_eq_true, decide_true, decide_false,
       List.cons.injEq, and_imp, forall_eq', forall_eq, forall_apply_eq_imp_iff, forall_eq_apply_imp_iff, imp_false]
   | (apply And.intro)
-  | (intro h; first | (have ⟨h1, h2⟩ : _ ∧ _ := h; clear h) | (try subst h))
+  | (intro h; first | (have ⟨h1, h2, h3⟩ : _ ∧ _ ∧ _ := h; clear h) | (have ⟨h1, h2⟩ : _ ∧ _ := h; clear h) | (try subst h))
   | (split <;> (try (simp only [isTok_some_iff] at *)) <;> (try subst_vars))
   | (generalize (toLvalue _) = x at *; split))
 
@@ -310,52 +326,35 @@ macro "pcallP" ih:ident : tactic => `(tactic| first
   | refine SpecP.mono (AllSound.assignment $ih _ (by first | assumption | (pfrag <;> simp_all) | simp_all)) ?_
   | refine SpecP.mono (AllSound.expression $ih _ (by first | assumption | (pfrag <;> simp_all) | simp_all)) ?_
   | refine SpecP.mono (AllSound.exprLoop $ih _ (by first | assumption | (pfrag <;> simp_all) | simp_all)) ?_
-  | (refine AllSound.operandLoop $ih _ _ _ ?_ ?_ <;> first | assumption | dsolve | (pfrag <;> simp_all; done))
-  | (refine AllSound.acsLoop $ih _ _ _ _ _ _ ?_ ?_ <;> first | assumption | dsolve | (pfrag <;> simp_all; done)))
+  | (refine SpecP.mono (AllSound.operandLoop $ih ?ts0 _ _ ?hf ?hd) ?post
+     case hd => dsolve
+     case hf => first | assumption | (pfrag <;> simp_all; done))
+  | (refine SpecP.mono (AllSound.acsLoop $ih ?ts0 _ _ _ _ _ ?hf ?hd) ?post
+     case hd => dsolve
+     case hf => first | assumption | (pfrag <;> simp_all; done))
+  | (exfalso; pfrag <;> simp_all; done))
+
+macro "dgrind" : tactic => `(tactic| grind [D.paren, D.list, D.callEmpty, D.call, D.index, D.operandAtom, D.chainOperand,
+  D.juxtapose, D.chainOps, D.opCons, D.args1Snoc, D.args1One, D.argsTrailing, D.argsOf, D.opParen, D.opIdent, D.ident,
+  D.emptyList, D.opNil])
 
 macro "pleaf" : tactic => `(tactic| (
   (try pfrag) <;> (try subst_vars) <;> (try pfrag) <;>
-  (try (first | dsolve | (refine ⟨?_, ?_⟩ <;> (first | dsolve | (simp_all; done)))))))
+  (try (first
+    | dsolve
+    | (refine ⟨?_, ?_, ?_⟩ <;> (first | dsolve | (simp_all; done) | dgrind))
+    | (refine ⟨?_, ?_⟩ <;> (first | dsolve | (simp_all; done) | dgrind))
+    | dgrind))))
 
 macro "pautoP" ih:ident : tactic => `(tactic| (repeat' (first | pstepP | pcallP $ih)))
 
-theorem sound_logicAndLoop (n : Nat) (ih : AllSound n) : ∀ e ts, AllFrag ts → SpecP (logicAndLoop (n + 1) e ts) (PostSame ts) := by
-  intro e ts hf
-  unfold logicAndLoop
-  pautoP ih
-  all_goals pleaf
-
-theorem sound_singleLoop (n : Nat) (ih : AllSound n) : ∀ e ts, AllFrag ts → SpecP (singleLoop (n + 1) e ts) (PostSame ts) := by
-  intro e ts hf
-  unfold singleLoop
-  pautoP ih
-  all_goals pleaf
-
-theorem sound_exprLoop (n : Nat) (ih : AllSound n) : ∀ ts, AllFrag ts → SpecP (exprLoop (n + 1)  ts) (PostSame ts) := by
-  intro ts hf
-  unfold exprLoop
-  pautoP ih
-  all_goals pleaf
-
-theorem sound_logicAnd (n : Nat) (ih : AllSound n) : ∀ ts, AllFrag ts → SpecP (logicAnd (n + 1)  ts) (PostD .chain ts) := by
-  intro ts hf
-  unfold logicAnd
-  pautoP ih
-  all_goals pleaf
-
-theorem sound_single (n : Nat) (ih : AllSound n) : ∀ ts, AllFrag ts → SpecP (single (n + 1)  ts) (PostD .chain ts) := by
-  intro ts hf
-  unfold single
-  pautoP ih
-  all_goals pleaf
-
-theorem sound_operand (n : Nat) (ih : AllSound n) : ∀ ts, AllFrag ts → SpecP (operand (n + 1)  ts) (PostD .operand ts) := by
+theorem sound_operand (n : Nat) (ih : AllSound n) : ∀ ts, AllFrag ts → SpecP (operand (n + 1)  ts) (PostI .operand ts) := by
   intro ts hf
   unfold operand
   pautoP ih
   all_goals pleaf
 
-theorem sound_operator (n : Nat) (ih : AllSound n) : ∀ ab ts, AllFrag ts → SpecP (operator (n + 1) ab ts) (PostD .atom ts) := by
+theorem sound_operator (n : Nat) (ih : AllSound n) : ∀ ab ts, AllFrag ts → SpecP (operator (n + 1) ab ts) (fun p r => D .atom ts r ∧ AllFrag r ∧ (p.1 = true → D .opAtom ts r)) := by
   intro ab ts hf
   unfold operator
   pautoP ih
@@ -367,34 +366,64 @@ theorem sound_chainLoop (n : Nat) (ih : AllSound n) : ∀ ab ts, AllFrag ts → 
   pautoP ih
   all_goals pleaf
 
-theorem sound_acs (n : Nat) (ih : AllSound n) : ∀ a ts, AllFrag ts → SpecP (acs (n + 1) a ts) (PostD .args ts) := by
+theorem sound_logicAnd (n : Nat) (ih : AllSound n) : ∀ ts, AllFrag ts → SpecP (logicAnd (n + 1)  ts) (PostI .chain ts) := by
+  intro ts hf
+  unfold logicAnd
+  pautoP ih
+  all_goals pleaf
+
+theorem sound_logicAndLoop (n : Nat) (ih : AllSound n) : ∀ e ts, AllFrag ts → SpecP (logicAndLoop (n + 1) e ts) (PostSame e ts) := by
+  intro e ts hf
+  unfold logicAndLoop
+  pautoP ih
+  all_goals pleaf
+
+theorem sound_single (n : Nat) (ih : AllSound n) : ∀ ts, AllFrag ts → SpecP (single (n + 1)  ts) (PostI .chain ts) := by
+  intro ts hf
+  unfold single
+  pautoP ih
+  all_goals pleaf
+
+theorem sound_singleLoop (n : Nat) (ih : AllSound n) : ∀ e ts, AllFrag ts → SpecP (singleLoop (n + 1) e ts) (PostSame e ts) := by
+  intro e ts hf
+  unfold singleLoop
+  pautoP ih
+  all_goals pleaf
+
+theorem sound_acs (n : Nat) (ih : AllSound n) : ∀ a ts, AllFrag ts → SpecP (acs (n + 1) a ts) (fun p r => D .args ts r ∧ AllFrag r ∧ (∀ e, p.1 = [e] → p.2 = false → e = .ident → D .opAtom ts r)) := by
   intro a ts hf
   unfold acs
   pautoP ih
   all_goals pleaf
 
-theorem sound_assignment (n : Nat) (ih : AllSound n) : ∀ ts, AllFrag ts → SpecP (assignment (n + 1)  ts) (PostD .args ts) := by
+theorem sound_assignment (n : Nat) (ih : AllSound n) : ∀ ts, AllFrag ts → SpecP (assignment (n + 1)  ts) (PostI .args ts) := by
   intro ts hf
   unfold assignment
   pautoP ih
   all_goals pleaf
 
-theorem sound_expression (n : Nat) (ih : AllSound n) : ∀ ts, AllFrag ts → SpecP (expression (n + 1)  ts) (PostD .args ts) := by
+theorem sound_expression (n : Nat) (ih : AllSound n) : ∀ ts, AllFrag ts → SpecP (expression (n + 1)  ts) (PostI .args ts) := by
   intro ts hf
   unfold expression
   pautoP ih
   all_goals pleaf
 
-theorem sound_annotatedPattern (n : Nat) (ih : AllSound n) : ∀ a ts, AllFrag ts → SpecP (annotatedPattern (n + 1) a ts) (PostD .args ts) := by
+theorem sound_exprLoop (n : Nat) (ih : AllSound n) : ∀ ts, AllFrag ts → SpecP (exprLoop (n + 1)  ts) (PostSame (false, false) ts) := by
+  intro ts hf
+  unfold exprLoop
+  pautoP ih
+  all_goals pleaf
+
+theorem sound_annotatedPattern (n : Nat) (ih : AllSound n) : ∀ a ts, AllFrag ts → SpecP (annotatedPattern (n + 1) a ts) (PostI .args ts) := by
   intro a ts hf
   unfold annotatedPattern
   refine (specP_bind _ _ _ _).mpr ?_
   pcallP ih
-  intro ⟨exs, c⟩ r ⟨h1, h2⟩
-  dsimp only
+  intro ⟨exs, c⟩ r ⟨h1, h2, h3⟩
+  dsimp only at h3 ⊢
   split <;> pautoP ih <;> pleaf
 
-theorem sound_chain (n : Nat) (ih : AllSound n) : ∀ ab ts, AllFrag ts → SpecP (chain (n + 1) ab ts) (PostD .chain ts) := by
+theorem sound_chain (n : Nat) (ih : AllSound n) : ∀ ab ts, AllFrag ts → SpecP (chain (n + 1) ab ts) (PostI .chain ts) := by
   intro ab ts hf
   unfold chain
   pautoP ih
@@ -402,7 +431,7 @@ theorem sound_chain (n : Nat) (ih : AllSound n) : ∀ ab ts, AllFrag ts → Spec
   all_goals pleaf
 
 theorem sound_operandLoop (n : Nat) (ih : AllSound n) : ∀ ts0 cur ts, AllFrag ts → D .operand ts0 ts →
-    SpecP (operandLoop (n + 1) cur ts) (PostD .operand ts0) := by
+    SpecP (operandLoop (n + 1) cur ts) (fun a r => D .operand ts0 r ∧ AllFrag r ∧ (a = .ident → cur = .ident ∧ r = ts)) := by
   intro ts0 cur ts hf hd
   unfold operandLoop
   apply specP_bind_attach _ _ _ _ hf
@@ -410,14 +439,15 @@ theorem sound_operandLoop (n : Nat) (ih : AllSound n) : ∀ ts0 cur ts, AllFrag 
   all_goals pleaf
 
 theorem sound_acsLoop (n : Nat) (ih : AllSound n) : ∀ ts0 a x y c ts, AllFrag ts → D .args1 ts0 ts →
-    SpecP (acsLoop (n + 1) a x y c ts) (PostD .args ts0) := by
+    SpecP (acsLoop (n + 1) a x y c ts)
+      (fun p r => D .args ts0 r ∧ AllFrag r ∧ (∀ e, p.1 = [e] → p.2 = false → r = ts ∧ x ++ y = [e] ∧ c = false)) := by
   intro ts0 a x y c ts hf hd
   unfold acsLoop
   pautoP ih
   all_goals pleaf
 
 set_option maxHeartbeats 1000000 in
-theorem sound_atom (n : Nat) (ih : AllSound n) : ∀ ts, AllFrag ts → SpecP (atom (n + 1) ts) (PostD .atom ts) := by
+theorem sound_atom (n : Nat) (ih : AllSound n) : ∀ ts, AllFrag ts → SpecP (atom (n + 1) ts) (PostI .atom ts) := by
   intro ts hf
   unfold atom
   split
@@ -523,6 +553,12 @@ theorem D_cancel {c : Cat} {ts r : List Token} (h : D c ts r) :
     obtain ⟨p2, hp2, hq2⟩ := ih2
     refine ⟨p1 ++ p2, by simp [hp1, hp2], fun r' => ?_⟩
     have := D.juxtapose _ _ _ (hq1 (p2 ++ r')) (hq2 r')
+    simpa using this
+  | opIdent s r => exact ⟨[.ident s], rfl, fun r' => D.opIdent s r'⟩
+  | opParen ts r _ ih =>
+    obtain ⟨p, hp, hq⟩ := ih
+    refine ⟨.leftParen :: p ++ [.rightParen], by simp [hp], fun r' => ?_⟩
+    have := D.opParen _ _ (hq (.rightParen :: r'))
     simpa using this
   | chainOps ts m1 m2 m3 r _ _ _ _ ih1 ih2 ih3 ih4 =>
     obtain ⟨p1, hp1, hq1⟩ := ih1
